@@ -104,7 +104,9 @@ def link(variant, name, objs, extra_ldflags=(), cxx_link=True, fuzzer=False):
     exe = os.path.join(bindir, name)
     lib = os.path.join(bdir, "orc", "liborc-0.4.a")
     if newer(exe, objs + [lib]):
-        cmd = [cxx if cxx_link else cc] + ldflags + objs + [lib] + list(extra_ldflags) + ["-lm", "-lpthread", "-o", exe]
+        extra = [f.replace("{liborc}", lib) for f in extra_ldflags]
+        own = [] if any("{liborc}" in f for f in extra_ldflags) else [lib]      # the check places the library itself (e.g. --whole-archive)
+        cmd = [cxx if cxx_link else cc] + ldflags + objs + own + extra + ["-lm", "-lpthread", "-o", exe]
         r = run(cmd)
         if r.returncode != 0:
             sys.stderr.write(r.stdout)
